@@ -4,6 +4,8 @@ from __future__ import annotations
 
 import ast
 import collections
+import random
+import re
 from fractions import Fraction
 
 from harness import common as C
@@ -25,13 +27,18 @@ FEATURE_SETS = [(), ("float",), ("funcs",), ("tuple",), ("float", "funcs", "tupl
                 # the region their guard used to exclude); expressions are opaque in the Coq statement model (shared Python
                 # semantics on both sides), so these programs are judged by the firmware-vs-CPython trace oracle and by the
                 # model-C-trace = firmware-trace correspondence
-                ("div",), ("div", "float", "funcs", "tuple")]
+                ("div",), ("div", "float", "funcs", "tuple"),
+                # `pass`: do-nothing arms of if / elif / else chains that have a later arm (an arm that disappears, or whose
+                # condition is no longer tested, changes which arm runs) and `pass` between the statements of a block
+                ("pass",), ("pass", "continue", "tuple", "float")]
 
 WITNESSES = {
     "F-C01-continue-dropped": {
         "src": progen.HEADER + "for i in range(4):\n    if i == 2:\n        continue\n    mon.write(i)\n", "loops": 0},
     "F-C01-range-bound-reeval": {
         "src": progen.HEADER + "n = 3\nfor i in range(n):\n    n = n - 1\n    mon.write(i)\n", "loops": 0},
+    "F-C01-loop-var-assigned": {
+        "src": progen.HEADER + "for i in range(4):\n    mon.write(i)\n    i = i + 2\n    mon.write(i)\n", "loops": 0},
     "F-C01-retype-truncates": {
         "src": progen.HEADER + "x = 1\nx = 2.5\nmon.write(x)\n", "loops": 0},
     "F-C01-hoisted-decl-reinit": {
@@ -43,8 +50,13 @@ WITNESSES = {
 
 WITNESSES.update(H.WITNESSES)
 
-HELPER_FEATURES = [("tuple",), ("tuple", "float"), ("tuple", "div"), ("tuple", "continue")]
+HELPER_FEATURES = [("tuple",), ("tuple", "float"), ("tuple", "div"), ("tuple", "continue"), ("tuple", "pass")]
 LABELS = ("int", "float", "bool", "String")
+
+
+def has_main(src):
+    """the script has a column-0 `while True:` header (a comment that merely mentions one does not count)"""
+    return re.search(r"^while\s+True\s*:", src, re.M) is not None
 
 
 def merge_correspondence(ctx):
@@ -79,9 +91,20 @@ def helper_unit(ctx, thorough):
     rng = ctx.rng
     out = merge_correspondence(ctx)
     progs, srcs = [], []
+    nrng = random.Random(rng.getrandbits(64))          # layout noise has its own stream (derived from the seed)
+    nstats = collections.Counter()
     for b in H.CORPUS:
         progs.append(None)
         srcs.append(progen.HEADER + b)
+    for b in H.CORPUS:                                  # every hand-written helper script again with layout noise
+        nz = progen.Noise(nrng)
+        t = progen.noisy_text(b, nz)
+        if t != b:
+            progs.append(None)
+            srcs.append(progen.HEADER + t)
+            nstats.update(nz.stats)
+            nstats["noisy-programs"] += 1
+    n_corpus = len(srcs)
     n = 420 if thorough else 44
     gstats = collections.Counter()
     sites = collections.Counter()
@@ -90,7 +113,13 @@ def helper_unit(ctx, thorough):
         p = g.program(with_main=rng.random() < 0.8)
         p["input"] = gen_inputs(rng)
         progs.append(p)
-        srcs.append(progen.render(p))
+        if (i // len(HELPER_FEATURES)) % 2 == 1:
+            nz = progen.Noise(nrng, wide=nstats["noisy-programs"] % 2 == 1)
+            srcs.append(progen.render(p, noise=nz))
+            nstats.update(nz.stats)
+            nstats["noisy-programs"] += 1
+        else:
+            srcs.append(progen.render(p))
         for k in ("kinds", "fx", "shapes"):
             for a, b in p["stats"][k].items():
                 gstats[f"{k}:{a}"] += b
@@ -98,7 +127,7 @@ def helper_unit(ctx, thorough):
         gstats["return-statements"] += p["stats"]["returns"]
         sites.update(p["stats"]["sites"])
     inputs = [p["input"] if p else "ar 14 300\nar 15 2\ndr 4 1\n" for p in progs]
-    loops = [(rng.choice([1, 2, 3]) if "while True:" in s else 0) for s in srcs]
+    loops = [(rng.choice([1, 2, 3]) if (p["main"] is not None if p else has_main(s)) else 0) for s, p in zip(srcs, progs)]
     res = run_pair(srcs, inputs, loops)
     stats = collections.Counter()
     for s, p, i, l, r in zip(srcs, progs, inputs, loops, res):
@@ -147,7 +176,8 @@ def helper_unit(ctx, thorough):
     out.update({"helper_programs": len(srcs), "helper_programs_by_status": dict(stats), "generated": dict(gstats), "call_sites": dict(sites),
                 "helper_return_types": dict(fst), "loop_passes": dict(collections.Counter(loops)),
                 "nontrivial": len({s for s, r in zip(srcs, res) if r["status"] == "equal" and len(r["py"]) >= 3}),
-                "samples": [srcs[len(H.CORPUS)][len(progen.HEADER):]] if len(srcs) > len(H.CORPUS) else []})
+                "layout_noise": dict(nstats),
+                "samples": [srcs[n_corpus][len(progen.HEADER):]] if len(srcs) > n_corpus else []})
     return out
 
 
@@ -235,6 +265,35 @@ CORPUS = [
     {"pre": [("assign", "w0", "0"), ("while", "(w0 < 2)", [("for", "k0", "(1 - w0)", [("assign", "i5", "5")]), ("assign", "w0", "(w0 + 1)"), ("write", "i5")]),
              ("for", "k1", "2", [("if", [("(k1 < 2)", [("for", "k2", "(1 - k1)", [("assign", "i6", "(k2 + 8)")])])], []), ("write", "i6")])],
      "main": [("assign", "i5", "(i5 + i6)"), ("write", "i5")]},
+]
+
+
+# programs that are only run under layout noise: blocks of every kind whose condition is FALSE / whose loop count is not 1 in
+# some pass, each with several statements (a statement that leaves its block - because a comment-only or blank line was taken
+# for the end of the block - runs unconditionally / a different number of times and changes the trace), else / elif arms
+# behind such blocks (a chain cut short loses its else), nesting three deep, and the same inside the main loop
+LAYOUT_CORPUS = [
+    {"pre": [("assign", "i0", "2"), ("if", [("(i0 > 5)", [("write", '"then"'), ("assign", "i0", "5"), ("write", "i0")])], []), ("write", "i0"),
+             ("if", [("(i0 > 5)", [("write", '"a"'), ("write", '"b"')]), ("(i0 > 3)", [("write", '"c"'), ("write", '"d"')])],
+              [("write", '"e"'), ("assign", "i0", "(i0 + 1)"), ("write", "i0")]),
+             ("for", "k0", "0", [("write", '"never"'), ("write", "k0"), ("assign", "i0", "99")]),
+             ("for", "k1", "3", [("write", "k1"), ("assign", "i0", "(i0 + k1)"), ("write", "i0")]),
+             ("assign", "w0", "5"), ("while", "(w0 < 3)", [("write", '"w"'), ("assign", "w0", "(w0 + 1)"), ("write", "w0")]), ("write", "(i0 + w0)")],
+     "main": None},
+    {"pre": [("assign", "i0", "0"), ("assign", "i1", "0")],
+     "main": [("assign", "i0", "(i0 + 1)"),
+              ("if", [("(i0 % 3 == 0)", [("write", '"fizz"'), ("sleep", "20"), ("assign", "i1", "10"), ("write", "i1")])],
+               [("write", "i0"), ("assign", "i1", "(i1 + 1)"), ("write", "i1")]),
+              ("for", "k0", "(i0 % 2)", [("write", "(k0 + 100)"), ("if", [("(i1 > 10)", [("write", '"big"'), ("assign", "i1", "0"), ("write", "i1")])], []), ("write", '"k"')]),
+              ("write", "(i0 * 100 + i1)")]},
+    {"pre": [("assign", "i0", "1"), ("assign", "w0", "0"),
+             ("while", "(w0 < 2)", [("assign", "w0", "(w0 + 1)"),
+                                    ("if", [("(w0 == 5)", [("for", "k0", "2", [("write", "k0"), ("write", '"x"')]), ("write", '"five"'), ("assign", "i0", "50")])],
+                                     [("for", "k1", "w0", [("if", [("(k1 == 7)", [("write", '"seven"'), ("assign", "i0", "70"), ("write", "i0")])], []),
+                                                           ("write", "(k1 + i0)"), ("assign", "i0", "(i0 * 2)")]), ("write", "i0")]),
+                                    ("write", "w0")]),
+             ("write", "(i0 + w0)")],
+     "main": [("if", [("(i0 > 1000)", [("write", '"huge"'), ("assign", "i0", "0"), ("sleep", "5")])], []), ("assign", "i0", "(i0 + 1)"), ("write", "i0")]},
 ]
 
 
@@ -494,6 +553,11 @@ def same_lines(a, b):
     return True
 
 
+def src_of(p):
+    """the source text of a generated program AS IT WAS RUN (a noisy layout is drawn once and kept in p["_src"])"""
+    return p.get("_src") or progen.render(p)
+
+
 def model_predicts_deviation(ctx, p, l):
     """For a script whose firmware trace differs from CPython's: does the faithful model (Lang.Transl + StmtSem,
     run by Lang.StmtExec) itself compute a C trace different from its Python trace?  Then the script is outside
@@ -511,7 +575,7 @@ def model_predicts_deviation(ctx, p, l):
     ee = exec_exprs(an.exprs, const_inputs(p["input"]))
     if ee is None:
         return None
-    impl = C.run_impl("c01_stmt_impl.py", {"cases": [{"src": progen.render(p), "exprs": an.exprs}]})
+    impl = C.run_impl("c01_stmt_impl.py", {"cases": [{"src": src_of(p), "exprs": an.exprs}]})
     r = impl["results"][0]
     w = [1, SW.wire_stmts(pre, r["consts"]), [] if main is None else [SW.wire_stmts(main, r["consts"])], ee[0], l, 600]
     o = C.run_model(exe, [w])[0]
@@ -652,14 +716,14 @@ def ir_correspondence(ctx, progs, loops=None, res=None):
             extra.append((loops[k] if loops else 0, res[k] if res else None))
     if not cases:
         return {"ir_cases": 0}
-    impl = C.run_impl("c01_stmt_impl.py", {"cases": [{"src": progen.render(p), "exprs": an.exprs} for p, an, _, _ in cases]})
+    impl = C.run_impl("c01_stmt_impl.py", {"cases": [{"src": src_of(p), "exprs": an.exprs} for p, an, _, _ in cases]})
     meta = impl
     wires = [[SW.wire_stmts(pre, r["consts"]), [] if main is None else [SW.wire_stmts(main, r["consts"])]]
              for (p, an, pre, main), r in zip(cases, impl["results"])]
     outs = C.run_model(exe, wires)
     st = collections.Counter()
     for (p, an, pre, main), r, o in zip(cases, impl["results"], outs):
-        src = progen.render(p)[len(progen.HEADER):]
+        src = src_of(p)[len(progen.HEADER):]
         if "reject" in r["ir"]:
             st["impl-reject"] += 1
             if o != [1]:
@@ -688,7 +752,7 @@ def ir_correspondence(ctx, progs, loops=None, res=None):
             st["equal"] += 1
     out = {"ir_cases": len(cases), "ir_status": dict(st)}
     if res is not None:
-        items = [(progen.render(p)[len(progen.HEADER):], p, an, pre, main, r, l, pr)
+        items = [(src_of(p)[len(progen.HEADER):], p, an, pre, main, r, l, pr)
                  for (p, an, pre, main), r, (l, pr) in zip(cases, impl["results"], extra)]
         out.update(exec_correspondence(ctx, exe, items))
     return out
@@ -733,9 +797,17 @@ def run_unit(ctx: C.Ctx):
         n_fixed = replay_fixed(ctx)
     n = 1200 if thorough else 160
     progs, feats = [], []
+    nrng = random.Random(rng.getrandbits(64))          # layout noise has its own stream (derived from the seed)
+    nstats = collections.Counter()
+    noisy = []                                          # per program: rendered with layout noise?
     for cp in CORPUS:
         progs.append({"funcs": [], "pre": list(cp["pre"]), "main": cp["main"], "input": "ar 14 300\nar 15 2\ndr 4 1\n"})
         feats.append(("corpus",))
+        noisy.append(False)
+    for cp in CORPUS + LAYOUT_CORPUS:                   # every boundary program again under layout noise (LAYOUT_CORPUS: only so)
+        progs.append({"funcs": [], "pre": list(cp["pre"]), "main": cp["main"], "input": "ar 14 300\nar 15 2\ndr 4 1\n"})
+        feats.append(("corpus", "layout-noise"))
+        noisy.append(True)
     for i in range(n):
         f = FEATURE_SETS[i % len(FEATURE_SETS)]
         g = progen.Gen(rng, f)
@@ -748,7 +820,23 @@ def run_unit(ctx: C.Ctx):
         p["input"] = gen_inputs(rng, force_const="branch_first" in f)     # these are always run through the models too
         progs.append(p)
         feats.append(f)
-    srcs = [progen.render(p) for p in progs]
+        noisy.append((i // len(FEATURE_SETS)) % 2 == 1)          # every other round of the feature sets
+    srcs = []
+    for p, nz_on, f_ in zip(progs, noisy, feats):
+        if nz_on:
+            # comment-only lines at every column (0 .. indentation and deeper), blank lines, trailing comments on statements
+            # and headers: CPython ignores them all, so the oracle is unchanged; the text is kept for the IR correspondence
+            # every other noisy program additionally with the `wide` classes: per-block indentation widths (or tabs only),
+            # optional blanks between tokens, CRLF, no final newline, non-ASCII comment text
+            nz = progen.Noise(nrng, p_line=0.45 if "corpus" in f_ else 0.3, wide=nstats["noisy-programs"] % 2 == 1,
+                              p_space=0.5 if "corpus" in f_ else 0.25)
+            p["_src"] = progen.render(p, noise=nz)
+            if not progen.same_python(p["_src"], progen.render(p)):
+                raise RuntimeError("harness bug: layout noise changed the program CPython reads:\n" + p["_src"])
+            nstats.update(nz.stats)
+            nstats["noisy-programs"] += 1
+            nstats["noisy-programs-with-dedented-comment-inside-block"] += 1 if nz.stats.get("dedented-comment-inside-block") else 0
+        srcs.append(src_of(p))
     loops = [(rng.choice([0, 1, 2, 3]) if p["main"] is not None else 0) for p in progs]
     res = run_pair(srcs, [p["input"] for p in progs], loops)
     stats = collections.Counter()
@@ -762,7 +850,7 @@ def run_unit(ctx: C.Ctx):
         stats[r["status"]] += 1
         body = s[len(progen.HEADER):]
         if r["status"] == "DIFF":
-            ctx.fail("firmware trace differs from CPython trace", {"script": s, "input": p["input"], "loops": l, "features": list(f)},
+            ctx.fail("firmware trace differs from CPython trace", {"script": s, "input": p["input"], "loops": l, "features": list(f) + (["layout-noise"] if "_src" in p and "layout-noise" not in f else [])},
                      r["py"], {"first_difference": r["diff"], "firmware": r["fw"]}, key="trace-diff")
         elif r["status"] == "nocompile":
             ctx.fail("accepted script does not compile", {"script": s, "features": list(f)}, "compilable C++", r["log"], key="nocompile")
@@ -772,7 +860,16 @@ def run_unit(ctx: C.Ctx):
             ctx.fail(f"transpiler raised {r['exc']} (not ValueError)", {"script": s}, "ValueError or success", r, key="reject-kind")
     # lists (outside the statement model): firmware trace vs CPython trace only
     lsrcs = [progen.HEADER + b for b in LIST_CORPUS] + [progen.HEADER + gen_list_program(rng) for _ in range(60 if thorough else 12)]
-    lloops = [(rng.choice([0, 2, 3, 6]) if "while True:" in s_ else 0) for s_ in lsrcs]
+    lnstats = collections.Counter()
+    for k in range(len(lsrcs)):                         # every other list program under layout noise
+        if k % 2 == 1:
+            nz = progen.Noise(nrng)
+            t = progen.HEADER + progen.noisy_text(lsrcs[k][len(progen.HEADER):], nz)
+            if t != lsrcs[k]:
+                lsrcs[k] = t
+                lnstats.update(nz.stats)
+                lnstats["noisy-programs"] += 1
+    lloops = [(rng.choice([0, 2, 3, 6]) if has_main(s_) else 0) for s_ in lsrcs]
     lstats = collections.Counter()
     for s, l, r in zip(lsrcs, lloops, run_pair(lsrcs, ["" for _ in lsrcs], lloops)):
         lstats[r["status"]] += 1
@@ -819,6 +916,7 @@ def run_unit(ctx: C.Ctx):
                     "loop_passes": dict(collections.Counter(loops)), "with_main_loop": sum(1 for p in progs if p["main"] is not None),
                     "constant_inputs": sum(1 for p in progs if len(const_inputs(p["input"])) == 3),
                     "continue_by_innermost_loop": dict(conts), "programs_with_continue_by_status": dict(cont_progs),
+                    "layout_noise": dict(nstats), "list_layout_noise": dict(lnstats),
                     "fixed_witnesses_replayed_first": n_fixed, "helper_functions": hu}
     ctx.coverage.setdefault("distribution", {})["C01_stmt"] = distribution
     ctx.assumptions += [
@@ -826,11 +924,11 @@ def run_unit(ctx: C.Ctx):
         "C int = Z and device float = Q in the models: runs that leave the 32-bit / binary32 range are detected on the CPython side and excluded, not blamed"]
     return {
         "distribution": distribution, "outside_guard_samples": outside[:3],
-        "theorems": "C01_no_silent_drop, C01_break_guard, C01_continue_guard, C01_continue_translation (all programs); C01_stmt_preserve_partial (simulation inside StmtGuard.guard_ok, modulo the shared expression semantics + SemFacts.sem_facts); C01_stmt_{range_bound,retype}_refuted (witnesses = listed findings); repaired and positive: C01_nothing_is_reinitialised (EVERY accepted program: no node of setup() / loop() at any depth declares or assigns a default value - the universally quantified statement both repaired findings contradicted), C01_hoisted_declaration_dropped, C01_first_assignment_becomes_assignment, C01_main_loop_first_assignment_is_global (all inputs), C01_stmt_promotion_no_reinit, C01_stmt_loop_variable_persists (the witnesses of F-C01-hoisted-decl-reinit / F-C01-loop-local-reinit: both traces equal); helper functions (Lang/FnRet.v): C01_return_type_covers, C01_bool_helper_only_truth_values, C01_number_or_truth_helper_is_int (all label lists), C01_helper_call_value_preserved (every body with any number of return statements: same state, events and number on both sides), C01_helper_call_serial_preserved_partial (guard FnRet.uniform_kind), C01_helper_mixed_return_refuted (finding F-C01-helper-mixed-return); tuple assignment (Lang/TupleOrder.v): C01_tuple_rhs_evaluated_in_source_order, C01_tuple_declaration_evaluated_in_source_order (the emitted statements evaluate e0..en once each, in source order, before the first target is written)",
-        "guard": "StmtGuard.guard_ok: every variable first assigned at top level of the setup part (global) or at top level of the `while True:` body before any read in the text of that body (a global as well since the repair of F-C01-loop-local-reinit: default initialiser, assigned in place, value kept between passes); later assignments keep the type label; tuple assignment either as the declaration of distinct new names at top level of the setup part, or (n >= 1) to names that are all declared already with unchanged types (swap / rotation / parallel assignment through block-local temporaries `__tmp_assign_k`, at any nesting level and in the main loop; mixed new/declared tuples and tuple declarations inside the main loop stay outside); declared names are not spelled like a temporary; range() bound int-labelled, independent of the loop variable and of names the body assigns; loop variables fresh, unassigned, read only inside their loop; consistent expression ids.  Oracle guard (dynamic): no computed int leaves 32 bits (CPython run with every expression instrumented); a script whose deviation the extracted model itself predicts (outside guard_ok) is not blamed.  `continue` is inside the guard (any placement the parser accepts: in for / while loops, under nested ifs, in the body of the main loop where it is `return;` from loop())",
+        "theorems": "layout (Lang/StmtLayout.v + the block-skeleton parser Lang/Lex.v): C01_stmt_layout_noise_invisible (EVERY layout inside the round-trip guard - junk lines at any column, trailing comments, any indentation unit - is read as the statements of its skeleton: no statement leaves or enters a block, no else arm is lost), C01_stmt_ir_relayout_invariant (same IR of the statement model for any two layouts of a script), C01_noisy_lines_keep_every_statement (lines -> IR keeps every statement in its block and phase), witnesses C01_layout_noise_witness (column-0 comment inside an if block in front of its second statement; the script with the statement moved out is a different statement list), C01_layout_chain_witness; C01_no_silent_drop, C01_break_guard, C01_continue_guard, C01_continue_translation (all programs); C01_stmt_preserve_partial (simulation inside StmtGuard.guard_ok, modulo the shared expression semantics + SemFacts.sem_facts); C01_stmt_{range_bound,loop_var_assigned,retype}_refuted (witnesses = listed findings); repaired and positive: C01_nothing_is_reinitialised (EVERY accepted program: no node of setup() / loop() at any depth declares or assigns a default value - the universally quantified statement both repaired findings contradicted), C01_hoisted_declaration_dropped, C01_first_assignment_becomes_assignment, C01_main_loop_first_assignment_is_global (all inputs), C01_stmt_promotion_no_reinit, C01_stmt_loop_variable_persists (the witnesses of F-C01-hoisted-decl-reinit / F-C01-loop-local-reinit: both traces equal); helper functions (Lang/FnRet.v): C01_return_type_covers, C01_bool_helper_only_truth_values, C01_number_or_truth_helper_is_int (all label lists), C01_helper_call_value_preserved (every body with any number of return statements: same state, events and number on both sides), C01_helper_call_serial_preserved_partial (guard FnRet.uniform_kind), C01_helper_mixed_return_refuted (finding F-C01-helper-mixed-return); tuple assignment (Lang/TupleOrder.v): C01_tuple_rhs_evaluated_in_source_order, C01_tuple_declaration_evaluated_in_source_order (the emitted statements evaluate e0..en once each, in source order, before the first target is written)",
+        "guard": "StmtGuard.guard_ok: every variable first assigned at top level of the setup part (global) or at top level of the `while True:` body before any read in the text of that body (a global as well since the repair of F-C01-loop-local-reinit: default initialiser, assigned in place, value kept between passes); later assignments keep the type label; tuple assignment either as the declaration of distinct new names at top level of the setup part, or (n >= 1) to names that are all declared already with unchanged types (swap / rotation / parallel assignment through block-local temporaries `__tmp_assign_k`, at any nesting level and in the main loop; mixed new/declared tuples and tuple declarations inside the main loop stay outside); declared names are not spelled like a temporary; range() bound int-labelled, independent of the loop variable and of names the body assigns; loop variables fresh, unassigned, read only inside their loop; consistent expression ids.  Oracle guard (dynamic): no computed int leaves 32 bits (CPython run with every expression instrumented); a script whose deviation the extracted model itself predicts (outside guard_ok) is not blamed.  `continue` is inside the guard (any placement the parser accepts: in for / while loops, under nested ifs, in the body of the main loop where it is `return;` from loop()).  Layout: one statement per physical line; indentation by blanks only or by tabs only (never mixed: F-C07-tab-width); a blank after if / elif / while, none between a callee / `range` and its parenthesis nor around the dot of a method call (F-C07-keyword-paren, F-C07-call-paren-space); no '#' inside triple-quoted literals; everything else CPython ignores (comment-only lines at any column, blank lines, trailing comments, optional blanks between tokens, CRLF) is generated",
         "unmodelled": ["helper functions: the return type and the returned value are modelled (Lang/FnRet.v, tied to _merge_return_types exhaustively and to the emitted return type of every generated helper); parameters / per-signature variants, locals of a helper and the call sites inside expressions are covered by the firmware-vs-CPython oracle only (generated helpers: several return statements, effects, calls in every expression position)", "side effects of expressions: the simulation theorem's expression semantics is pure; the ORDER of effectful right-hand sides of a tuple assignment is proved at the level of the emitted node list (C01_tuple_rhs_evaluated_in_source_order) and observed on the firmware by the oracle; C++ operand / argument evaluation order inside one expression is outside every model (finding F-C01-eval-order)", "lists, try/except, device objects (firmware-vs-CPython oracle only)", "hoisting (promotion: a name first assigned inside an if/while/for block) is in Lang.Transl and in the executable correspondence (IR and both traces), but outside the simulation theorem's guard; the refuted witness retype marks where the unchanged code stops preserving behaviour; hoisted-decl-reinit and loop-local-reinit are repaired (witness theorems C01_stmt_promotion_no_reinit / C01_stmt_loop_variable_persists, rewriter theorems for all inputs) ; for every accepted program C01_nothing_is_reinitialised excludes the defect class itself (no default re-initialisation anywhere) - a universally quantified SIMULATION theorem for hoisting is not proved", "tuples mixing new and declared names, tuple first-assignments inside the main loop (globals assigned from the temporaries: in Lang.Transl.tr_tuple_main and both correspondences, outside the simulation theorem's guard)", "expression translation (unit C01_expr): the simulation is modulo a shared opaque expression semantics", "16-bit int of a real AVR", "identifiers reserved in C++ (keywords, setup / loop, Arduino core names, A<n>): rejected by the parser since the repair of F-C06-cpp-keyword-identifier; Lang.Transl does not transcribe that check (its model is coq/Lang/Reserved.v of C06, tied to parser._check_identifier there) and the generated programs take their names from pools without such names"],
         "evaluations": len(progs) + len(lsrcs) + ir["ir_cases"] + ir.get("exec_cases", 0) + hu.get("merge_cases", 0) + hu["helper_programs"], "list_programs_by_status": dict(lstats), "programs_by_status": dict(stats), "ir_correspondence": ir,
         "distinct_nontrivial": len({s for s, r in zip(srcs, res) if r["status"] == "equal" and len(r["py"]) >= 3}) + hu["nontrivial"],
         "samples": [srcs[0][len(progen.HEADER):], srcs[-1][len(progen.HEADER):]],
-        "rule": "the witnesses of repaired defects first (F-C01-continue-dropped), then 20 hand-written boundary programs (break guard, nested break, empty range, elif chain, shadowing loop variable, tuple declarations reading re-assigned variables, tuple assignments to declared names - float swap, rotation, Fibonacci step, swaps in the main loop -, promotion out of for/while/if; `continue` in for-range, in while, under nested ifs, in an else arm, in the inner of two loops, in the main loop body directly / under nested ifs / inside a for loop of the main loop, unconditional with dead code after it, misplaced = rejected) + seeded programs from harness/progen.py over 8 feature sets (core ints; +floats; +helper functions; +tuple/swap; all; first assignment inside branches; `continue`; `continue` + all), N in 0..3 loop passes, scripted analog/digital inputs (half of them constant per pin); every program: firmware trace vs CPython trace (oracle); programs without helper functions: IR of Lang.Transl.transl vs IR of the real parser; those with constant inputs additionally: extracted pexec vs CPython trace and extracted transl+cexec vs firmware trace (Lang.StmtExec), and the number of them inside the guard of C01_stmt_preserve_partial is recorded; non-trivial = both sides ran and the common trace has >= 3 events; HELPER FUNCTIONS (harness/c01_helpers.py): 12 hand-written helper scripts (False-or-number and number-or-comparison helpers, tuple assignment from reporting / global-updating / sleeping / pin-driving helpers at module level, in the main loop and to function locals, early return out of loops, recursion, bare return, two call signatures, calls in while/if/elif conditions, and/or operands, conditional-expression arms, f-string fields) + seeded programs with 2-5 helpers each (kinds int / bool / bool+int mixed / float / void; shapes guard chain, early return in for and while loops, nested ifs, single return; effects serial / delay / pin / global counter) called from every expression position; oracle = firmware trace vs CPython trace; ties = Lang.FnRet.merge_ret vs _merge_return_types on all 2730 label lists of length <= 5 x has_void, and per parsed helper: labels handed to _merge_return_types = `return e` statements of the generated body, emitted return type = cpp(merge_ret labels)",
+        "rule": "the witnesses of repaired defects first (F-C01-continue-dropped), then 20 hand-written boundary programs (break guard, nested break, empty range, elif chain, shadowing loop variable, tuple declarations reading re-assigned variables, tuple assignments to declared names - float swap, rotation, Fibonacci step, swaps in the main loop -, promotion out of for/while/if; `continue` in for-range, in while, under nested ifs, in an else arm, in the inner of two loops, in the main loop body directly / under nested ifs / inside a for loop of the main loop, unconditional with dead code after it, misplaced = rejected) + seeded programs from harness/progen.py over 8 feature sets (core ints; +floats; +helper functions; +tuple/swap; all; first assignment inside branches; `continue`; `continue` + all), N in 0..3 loop passes, scripted analog/digital inputs (half of them constant per pin); every program: firmware trace vs CPython trace (oracle); programs without helper functions: IR of Lang.Transl.transl vs IR of the real parser; those with constant inputs additionally: extracted pexec vs CPython trace and extracted transl+cexec vs firmware trace (Lang.StmtExec), and the number of them inside the guard of C01_stmt_preserve_partial is recorded; non-trivial = both sides ran and the common trace has >= 3 events; HELPER FUNCTIONS (harness/c01_helpers.py): 12 hand-written helper scripts (False-or-number and number-or-comparison helpers, tuple assignment from reporting / global-updating / sleeping / pin-driving helpers at module level, in the main loop and to function locals, early return out of loops, recursion, bare return, two call signatures, calls in while/if/elif conditions, and/or operands, conditional-expression arms, f-string fields) + seeded programs with 2-5 helpers each (kinds int / bool / bool+int mixed / float / void; shapes guard chain, early return in for and while loops, nested ifs, single return; effects serial / delay / pin / global counter) called from every expression position; oracle = firmware trace vs CPython trace; ties = Lang.FnRet.merge_ret vs _merge_return_types on all 2730 label lists of length <= 5 x has_void, and per parsed helper: labels handed to _merge_return_types = `return e` statements of the generated body, emitted return type = cpp(merge_ret labels); LAYOUT NOISE (harness/progen.py Noise; CPython ignores all of it, so every oracle and correspondence is unchanged - the IR correspondence parses the noisy text and compares with the model's IR of the tree): every boundary program a second time, three layout boundary programs (blocks of every kind with several statements whose condition is false / whose count is not 1, else arms behind them, three levels, the same inside the main loop) and every other round of the generated programs / helper programs / list programs carry comment-only lines at every column (0, the enclosing header's column, between, the current indentation, deeper) before any statement - the first of a block, elif / else included - and after the last one of a block, blank and blanks-only lines, trailing comments and trailing blanks on statements and headers (if / elif / else / while / for / def / the main loop), comment texts that look like code (`# else:`, `# while True:`, `# i0 = 99`, unbalanced quotes, two hashes); half of those additionally: each block with its own indentation width (1-8 blanks) or the whole script tab-indented, optional blanks around = / augmented operators / commas / inside call parentheses / before the colon / between header words, CRLF line ends, no newline at the end of the file, non-ASCII comment text; counts in distribution.layout_noise (dedented-comment-inside-block = a comment-only line no deeper than the enclosing header followed by a statement of the same block)",
     }
